@@ -180,6 +180,13 @@ def build_api(c, names, rng=None, order='random'):
     return sc
 
 
+def _use(sc):
+    """Every structural query once (a statechart that has been used before it is edited)."""
+    for nm in list(sc.states):
+        sc.depth_for(nm), sc.ancestors_for(nm), sc.descendants_for(nm), sc.children_for(nm), sc.parent_for(nm)
+    sc.leaf_for(list(sc.states)), sc.events_for()
+
+
 def build_api_edit(c, names, rng):
     """Build through the editing API: composite sub-trees are first created under the root and then
     moved to their place with move_state; some states are created under a temporary name and renamed."""
@@ -204,7 +211,9 @@ def build_api_edit(c, names, rng):
         pname = (tmpnames.get(where) or names[where]) if where else None
         sc.add_state(st, pname)
     for s in moved:
+        _use(sc)
         sc.move_state(tmpnames.get(s) or names[s], tmpnames.get(c['parent'][s - 1]) or names[c['parent'][s - 1]])
+    _use(sc)
     for s, t in tmpnames.items():
         sc.rename_state(t, names[s])
     # initial / memory may have been reset by move_state, or still carry final names of renamed states
